@@ -193,6 +193,11 @@ theorem spec_addMacro (n : String) (v : CVal) (hn : nameLike n = true) : Spec t 
     rw [this]; exact hn
   · exact h.macros m s hl hk
 
+theorem spec_assignable (n : String) : Spec t (assignable n) := by
+  unfold assignable
+  refine Spec.bind spec_getSt (fun st => ?_)
+  exact Spec.ite (spec_triggerError _) (Spec.pure _)
+
 end Bardolph.ParseTok
 
 namespace Bardolph.ParseTok
@@ -323,5 +328,4 @@ theorem spec_bind_currentLiteral {K : Option CVal → M β} (hK : ∀ v, Spec t 
     show (K none _).Good t st
     rw [hm]
     exact failPost_addError2 st _ _
-
 end Bardolph.ParseTok
